@@ -670,6 +670,11 @@ def test_interpolate(case, note):
             # interpolant reproduces the nodes only to that tolerance
             ntol = (16 * EPS if method in ("linear", "nearest", "slinear")
                     else 1e-12 if method == "pchip" else 1e-4) * vmag
+            if method in ("slinear", "cubic", "quintic"):
+                # ... and with an absolute tolerance (scipy's make_ndbspl
+                # sets atol=1e-6 on the residual norm): a field whose norm
+                # is below it is "solved" by the zero initial guess
+                ntol += 1e-5
             d = np.abs(got - want)
             if not np.all(d <= ntol):
                 note.fail(f"interpolate:node:{method}",
